@@ -22,8 +22,8 @@
 (***************************************************************************)
 EXTENDS Search, TLC
 
-CONSTANTS Family, TreeDepth, MaxLen, ShiftWindow
-Keys == {-1, 0, 1}
+CONSTANTS Family, TreeDepth, MaxLen, ShiftWindow, SmallLeaves
+Keys == IF SmallLeaves THEN {-1, 1} ELSE {-1, 0, 1}
 
 \* inverse of Inc on its range; Won / Lost (never in the range of Inc) stay
 Dec(s) == CASE s.t = "M" /\ s.m = 1  -> Won
@@ -60,7 +60,8 @@ ABKids(cfg, ks, d, i, a, b) ==
 
 (* ------------------------- the tree families --------------------------- *)
 Nd(d, c, v, x, ks) == [d |-> d, c |-> c, n |-> Len(ks), v |-> v, x |-> x, mv |-> <<>>, k |-> ks, h |-> ""]
-Terminals == { Nd(0, 1, 0, 1, <<>>), Nd(0, 0, 0, 1, <<>>), Nd(1, 0, 0, 1, <<>>) }   \* mate, stalemate, drawn
+Terminals == { Nd(0, 1, 0, 1, <<>>), Nd(0, 0, 0, 1, <<>>) }                              \* mate, stalemate
+             \cup (IF SmallLeaves THEN {} ELSE { Nd(1, 0, 0, 1, <<>>) })                    \* drawn
 \* a leaf of the main search still has legal moves (n > 0) that are simply not searched
 QuietLeaf(v) == [d |-> 0, c |-> 0, n |-> 1, v |-> v, x |-> 1, mv |-> <<>>, k |-> <<>>, h |-> ""]
 Leaves == Terminals \cup { QuietLeaf(v) : v \in Keys }
